@@ -298,6 +298,27 @@ def _run_stream(exe, lines, restart_on_death, env=None):
     return outs
 
 
+def build_harness_profile(profile):
+    """the harness without debug assertions / overflow checks (profiles relcheck: optimised, nocheck:
+    unoptimised); returns the path of the binary or None"""
+    with BuildLock():
+        rc, out = run_cmd(["cargo", "build", "--offline", "--profile", profile], HARNESS_DIR)
+    return os.path.join(HARNESS_DIR, "target", profile, "ephar") if rc == 0 else None
+
+
+def run_cases_with(exe, cases):
+    """fill case.impl from another build of the harness (model outputs are left as they are)"""
+    impl_lines, impl_idx = [], []
+    for ci, c in enumerate(cases):
+        for li, line in enumerate(c.lines):
+            if not line.startswith("spec."):
+                impl_lines.append(line)
+                impl_idx.append((ci, li))
+    impl_out = _run_stream(exe, impl_lines, True, None) if impl_lines else []
+    for (ci, li), o in zip(impl_idx, impl_out):
+        cases[ci].impl[li] = o
+
+
 def run_cases(cases, impl_env=None):
     """run all lines of all cases on both sides, fill case.impl / case.model."""
     impl_lines, impl_idx = [], []
